@@ -238,6 +238,11 @@ func (h *hist) submit(a *hx.Node) {
 		h.submitted[a.ID] = append(h.submitted[a.ID], hx.TxSerialOf(tx))
 	}
 	a.Core.AddTransactions(txs)
+	fmt.Fprintf(h.w.Out, "T %d", a.ID)
+	for _, tx := range txs {
+		fmt.Fprintf(h.w.Out, " %d", hx.TxSerialOf(tx))
+	}
+	fmt.Fprintf(h.w.Out, "\n")
 	h.actions["submit"]++
 }
 
